@@ -173,14 +173,16 @@ def stemOf (path : Str) : Str :=
   let comps := (FsLookup.splitColon (path.map fun c => if c == '/' then ':' else c)).filter (!·.isEmpty)
   (FsLookup.fileStem comps).getD []
 
+/-- `plugs_by_name.entry(name).or_default().push(plug)` -/
+def groupStep (m : List (Str × List Str)) (p : Str) : List (Str × List Str) :=
+  match amGet m (stemOf p) with
+  | some ps => amInsert m (stemOf p) (ps ++ [p])
+  | none => m ++ [(stemOf p, [p])]
+
 /-- `plugs_by_name`: the plugs grouped by file stem; groups in order of first occurrence,
     members in argument order -/
 def groupByStem (plugs : List Str) : List (Str × List Str) :=
-  plugs.foldl (fun m p =>
-    let n := stemOf p
-    match amGet m n with
-    | some ps => amInsert m n (ps ++ [p])
-    | none => m ++ [(n, [p])]) []
+  plugs.foldl groupStep []
 
 /-- names given to the members of one group: `plug:<stem>`, with the member's index appended
     when the group has more than one member -/
@@ -244,5 +246,49 @@ def parseRun (t : Tables) (json : Option Tok) : Observation :=
   match json with
   | some j => { exit := 0, stdout := j, stdoutNewline := true, file := none, diagnostic := false }
   | none => failure t
+
+
+/-! ### `PackageResolver::resolve` (src/lib.rs): file system first, then the registry
+
+  Generic in the key, span, content and error types; the two resolvers are parameters (they are
+  the subjects of C18 and C20). -/
+
+inductive PipelineErr (ε₁ ε₂ κ σ : Type) where
+  | fileSystem (e : ε₁)
+  | registry (e : ε₂)
+  | unknownPackage (key : κ) (span : σ)
+deriving DecidableEq, Repr
+
+section
+variable {κ σ β ε₁ ε₂ : Type} [DecidableEq κ]
+
+/-- `keys.retain(|key, _| !packages.contains_key(key))` -/
+def retainMissing (keys : List (κ × σ)) (packages : List (κ × β)) : List (κ × σ) :=
+  keys.filter fun k => !(packages.any fun p => p.1 == k.1)
+
+/-- the final `if let Some((key, span)) = keys.first()` -/
+def finishResolve (packages : List (κ × β)) (remaining : List (κ × σ)) :
+    Except (PipelineErr ε₁ ε₂ κ σ) (List (κ × β)) :=
+  match remaining with
+  | [] => .ok packages
+  | (k, sp) :: _ => .error (.unknownPackage k sp)
+
+/-- `PackageResolver::resolve`; `registry = none` is a build without the `registry` feature -/
+def resolvePackages (fs : List (κ × σ) → Except ε₁ (List (κ × β)))
+    (registry : Option (List (κ × σ) → Except ε₂ (List (κ × β)))) (keys : List (κ × σ)) :
+    Except (PipelineErr ε₁ ε₂ κ σ) (List (κ × β)) :=
+  match fs keys with
+  | .error e => .error (.fileSystem e)
+  | .ok found =>
+    let remaining := retainMissing keys found
+    match registry with
+    | none => finishResolve found remaining
+    | some reg =>
+      if remaining.isEmpty then finishResolve found remaining
+      else
+        match reg remaining with
+        | .error e => .error (.registry e)
+        | .ok more => finishResolve (found ++ more) (retainMissing remaining more)
+end
 
 end Wac.Cli
